@@ -225,6 +225,15 @@ def run(ck):
     nn2 = net.NetNode(ck, "rf24_network", "RF24Network")
     nn2.merge_funcs = set()
     c13.receive_rule(ck, agg, nn2)
+    # "write()/send() returns True for a delivered message": which types make the origin wait for a NETWORK_ACK must be exactly the types
+    # for which the last hop sends one (one predicate, R13.1: 65..191, the fragment types included)
+    c13.ack_type_region(ck, agg)
+    # delivery "to the destination and to no other node" rests on what _begin() derives from an address (R04.1: masks, parent, parent
+    # pipe - also when _begin() runs a second time on a node that already has an address: its fields start from arbitrary values)
+    from . import c04
+    nn3 = net.NetNode(ck, "rf24_network", "RF24Network")
+    nn3.merge_funcs = set()
+    c04.begin_structure(ck, agg, nn3)
     agg.flush()
     ck.floor("R05.1", "single-frame transmissions", n1, 1)
     ck.floor("R05.2", "validation scenarios and public senders", n2, 8)
